@@ -162,7 +162,12 @@ pub enum Scenario {
     Update(usize, bool),
     MissingMandatory(usize),
     Invalid(usize),
+    /// the value never exists as text: free-text field `.0` carries in-memory variant `.1` of its value (0 blanks in
+    /// front, 1 blanks behind, 2 starts with a line break and has two lines, 3 the plain value); source paragraph
+    /// collected from pairs on either back-end, converted on either back-end
+    Mem(usize, usize),
 }
+pub const N_MEM: usize = 4;
 
 #[derive(Clone, Serialize, Deserialize, PartialEq, Debug)]
 pub struct C16Case {
@@ -409,6 +414,36 @@ fn check_invalid(sp: &ParaSpec, v: &[usize], fi: usize) -> Vec<Viol> {
     out
 }
 
+fn free_text(f: &FieldSpec) -> bool {
+    f.norm == Exact && f.invalid.is_none()
+}
+
+fn check_mem(sp: &ParaSpec, v: &[usize], fi: usize, variant: usize) -> Vec<Viol> {
+    let fs = present(sp, v);
+    let name = sp.fields[fi].name;
+    let items: Items = fs
+        .iter()
+        .map(|(f, val)| {
+            let val = if f.name == name {
+                match variant {
+                    0 => format!("  {}", val),
+                    1 => format!("{} \t", val),
+                    2 => format!("\n{}\nsecond", val),
+                    _ => val.to_string(),
+                }
+            } else {
+                val.to_string()
+            };
+            (f.name.to_string(), val)
+        })
+        .collect();
+    match (sp.mem)(&items) {
+        Ok(()) => vec![],
+        Err(e) if e.starts_with("@backends") => vec![viol("backends-agree", format!("{}: {}", sp.id, e))],
+        Err(e) => vec![viol("roundtrip-equal-in-memory", format!("{}: {}", sp.id, e))],
+    }
+}
+
 fn bases(sp: &ParaSpec) -> Vec<Vec<usize>> {
     let a: Vec<usize> = sp.fields.iter().map(|f| if f.mandatory { 1 } else { 0 }).collect();
     let b: Vec<usize> = sp.fields.iter().map(|_| 1).collect();
@@ -428,7 +463,7 @@ impl Prop for C16 {
         "exploration"
     }
     fn rule(&self, _t: Tier) -> String {
-        "programs: 16 single-field structs (every combination of mandatory/optional x default/renamed key x default/custom serialiser x default/custom deserialiser), one struct with all 16 shapes, and every deriving struct shipped in the workspace; values: per struct every presence/value vector within k deviations (k = 2, thorough 3; full product for the single-field structs) of the all-mandatory and the all-present baselines; scenarios per vector: round trip on both back-ends; for k <= 1 also update_paragraph onto 7 prior contents x 2 back-ends, deletion of each mandatory field, corruption of each field that has an invalid value; non-trivial = all".into()
+        "programs: 16 single-field structs (every combination of mandatory/optional x default/renamed key x default/custom serialiser x default/custom deserialiser), one struct with all 16 shapes, and every deriving struct shipped in the workspace; values: per struct every presence/value vector within k deviations (k = 2, thorough 3; full product for the single-field structs) of the all-mandatory and the all-present baselines; scenarios per vector: round trip on both back-ends; for k <= 1 also update_paragraph onto 7 prior contents x 2 back-ends, deletion of each mandatory field, corruption of each field that has an invalid value, and for each free-text field 4 values that never exist as text (blanks in front / behind, a leading line break) collected into a paragraph on either back-end and converted on either back-end; non-trivial = all".into()
     }
     fn bounds(&self, t: Tier) -> Value {
         json!({"structs": all_specs().iter().map(|s| json!({"id": s.id, "fields": s.fields.len()})).collect::<Vec<_>>(), "k": t.pick(2, 3)})
@@ -478,6 +513,11 @@ impl Prop for C16 {
                         if fld.invalid.is_some() && v[i] > 0 {
                             f(&C16Case { spec: sp.id.to_string(), v: v.clone(), scenario: Scenario::Invalid(i) });
                         }
+                        if free_text(fld) && v[i] > 0 && !fld.valid[(v[i] - 1) % fld.valid.len()].is_empty() {
+                            for m in 0..N_MEM {
+                                f(&C16Case { spec: sp.id.to_string(), v: v.clone(), scenario: Scenario::Mem(i, m) });
+                            }
+                        }
                     }
                 }
             };
@@ -499,6 +539,7 @@ impl Prop for C16 {
             Scenario::Update(kind, lossless) => check_update(sp, &c.v, *kind, *lossless),
             Scenario::MissingMandatory(i) => check_missing(sp, &c.v, *i),
             Scenario::Invalid(i) => check_invalid(sp, &c.v, *i),
+            Scenario::Mem(i, m) => check_mem(sp, &c.v, *i, *m),
         });
         match r {
             Ok(vs) => {
@@ -508,6 +549,7 @@ impl Prop for C16 {
                         Scenario::Update(..) => "update-ok",
                         Scenario::MissingMandatory(_) => "missing-rejected",
                         Scenario::Invalid(_) => "invalid-rejected",
+                        Scenario::Mem(..) => "in-memory-roundtrip-ok",
                     });
                 }
                 vs
@@ -538,6 +580,6 @@ impl Prop for C16 {
         format!("// C16 replay: {:?}\n// clause {}: {}\n", c, v.clause, v.detail.replace('\n', "\\n"))
     }
     fn required_outcomes(&self) -> Vec<&'static str> {
-        vec!["roundtrip-ok", "update-ok", "missing-rejected", "invalid-rejected"]
+        vec!["roundtrip-ok", "update-ok", "missing-rejected", "invalid-rejected", "in-memory-roundtrip-ok"]
     }
 }
